@@ -467,6 +467,7 @@ req_sketch<T, C, A> req_sketch<T, C, A>::deserialize(std::istream& is, const Ser
 
   const bool raw_items = flags_byte & (1 << flags::RAW_ITEMS);
   const bool is_level_0_sorted = flags_byte & (1 << flags::IS_LEVEL_ZERO_SORTED);
+  check_non_empty_header(k, num_levels, raw_items);
   std::vector<Compactor, AllocCompactor> compactors(allocator);
 
   uint64_t n = 1;
@@ -489,6 +490,7 @@ req_sketch<T, C, A> req_sketch<T, C, A>::deserialize(std::istream& is, const Ser
       compactors.push_back(Compactor::deserialize(is, sd, comparator, allocator, i == 0 ? is_level_0_sorted : true, hra));
     }
   }
+  check_compactors(compactors);
   if (num_levels == 1) {
     const auto begin = compactors[0].begin();
     const auto end = compactors[0].end();
@@ -543,6 +545,7 @@ req_sketch<T, C, A> req_sketch<T, C, A>::deserialize(const void* bytes, size_t s
 
   const bool raw_items = flags_byte & (1 << flags::RAW_ITEMS);
   const bool is_level_0_sorted = flags_byte & (1 << flags::IS_LEVEL_ZERO_SORTED);
+  check_non_empty_header(k, num_levels, raw_items);
   std::vector<Compactor, AllocCompactor> compactors(allocator);
 
   uint64_t n = 1;
@@ -570,6 +573,7 @@ req_sketch<T, C, A> req_sketch<T, C, A>::deserialize(const void* bytes, size_t s
       ptr += pair.second;
     }
   }
+  check_compactors(compactors);
   if (num_levels == 1) {
     const auto begin = compactors[0].begin();
     const auto end = compactors[0].end();
@@ -700,6 +704,33 @@ void req_sketch<T, C, A>::check_preamble_ints(uint8_t preamble_ints, uint8_t num
   if (preamble_ints != expected_preamble_ints) {
     throw std::invalid_argument("Possible corruption: preamble ints must be "
         + std::to_string(expected_preamble_ints) + ", got " + std::to_string(preamble_ints));
+  }
+}
+
+template<typename T, typename C, typename A>
+void req_sketch<T, C, A>::check_non_empty_header(uint16_t k, uint8_t num_levels, bool raw_items) {
+  if (k < req_constants::MIN_K || (k & 1) != 0) {
+    throw std::invalid_argument("Possible corruption: k must be even and >= " + std::to_string(req_constants::MIN_K)
+        + ", got " + std::to_string(k));
+  }
+  if (num_levels == 0) {
+    throw std::invalid_argument("Possible corruption: number of levels must be positive in a non-empty sketch");
+  }
+  if (raw_items && num_levels != 1) {
+    throw std::invalid_argument("Possible corruption: raw items imply one level, got " + std::to_string(num_levels));
+  }
+}
+
+template<typename T, typename C, typename A>
+void req_sketch<T, C, A>::check_compactors(const std::vector<Compactor, AllocCompactor>& compactors) {
+  for (size_t i = 0; i < compactors.size(); ++i) {
+    if (compactors[i].get_lg_weight() != i) {
+      throw std::invalid_argument("Possible corruption: lg_weight of level " + std::to_string(i)
+          + " is " + std::to_string(compactors[i].get_lg_weight()));
+    }
+  }
+  if (compactors.size() == 1 && compactors[0].get_num_items() == 0) {
+    throw std::invalid_argument("Possible corruption: no items in a non-empty sketch");
   }
 }
 
